@@ -3,6 +3,7 @@ package sim
 import (
 	"fmt"
 	"net/netip"
+	"strings"
 	"time"
 
 	"github.com/jwhited/corebgp"
@@ -75,7 +76,7 @@ func runC12(w *World) {
 	}
 	// model of the statement
 	var d time.Duration
-	tLast := time.Duration(-1)
+	tLast, sleptLast := time.Duration(-1), time.Duration(0)
 	nevents := 1 + w.Draw(8, "nevents")
 	if w.Tier == "thorough" && w.Chance(1, 3, "longhistory") {
 		nevents = 6 + w.Draw(8, "nevents2")
@@ -150,12 +151,6 @@ func runC12(w *World) {
 			}
 			w.Quiesce()
 		}
-		// avoid an amnesia tie
-		if tLast >= 0 {
-			if g := w.Now() - tLast - 300*time.Second; g > -10*time.Millisecond && g < 10*time.Millisecond {
-				w.Sleep(20 * time.Millisecond)
-			}
-		}
 		// ---- inject ----
 		kind := w.Draw(15, "kind")
 		if kind == 12 && st != StOpenSent { // OnOpenMessage runs in OpenSent only
@@ -176,10 +171,29 @@ func runC12(w *World) {
 		if kind == 4 && st != StOpenSent {
 			kind = 7
 		}
+		tie := false
+		// avoid an amnesia tie: corebgp measures the 300 s between the instants its peer
+		// manager handled the two errors, and a slow Logger delays each of them
+		if tLast >= 0 {
+			lead := time.Duration(0)
+			if kind == 5 {
+				lead = time.Duration(hold) * time.Second // the event is the expiry of the hold timer
+			}
+			lo, hi := -10*time.Millisecond-2*logMax, 10*time.Millisecond+(w.LogSlept-sleptLast)+logMax
+			if g := w.Now() + lead - tLast - 300*time.Second; g > lo && g < hi {
+				if hi-g < 500*time.Millisecond {
+					w.Sleep(hi - g + 10*time.Millisecond)
+				} else {
+					// too long to sit out with a connection open: the outcome of this
+					// event is not judged and the history ends with it
+					tie = true
+				}
+			}
+		}
 		damp := true
 		name := ""
 		before := c.NFrames()
-		slept0, tInj := w.LogSlept, w.Now()
+		slept0, tInj, seqT := w.LogSlept, w.Now(), w.Seq()
 		if w.Chance(1, 3, "concurrent-inbound") {
 			// keep the peer manager busy with something else at the very moment the
 			// error is reported: an inbound connection from the same peer
@@ -272,7 +286,19 @@ func runC12(w *World) {
 				w.Probe("provocation-produced-no-protocol-notification:" + name)
 				damp = false
 			} else {
-				t = nf.At
+				t, seqT = nf.At, nf.Seq
+			}
+		}
+		// (a0) the FSM that sent or received the NOTIFICATION never dials again: whatever
+		// it does next is causally after the error (attempts of the peer's OTHER FSM
+		// that were under way at that instant are a race and are left to the window
+		// check below)
+		if damp && c.Owner() != "" {
+			for _, dl := range p.Site.DialList() {
+				if dl.Seq > seqT && strings.HasPrefix(dl.Task, c.Owner()+".") {
+					w.Violate("C12/dial-in-hold-down/by-the-failed-fsm", "history %v + %s: the FSM (%s) whose connection %s ended with the protocol error at %v dialled again at %v", hist, name, c.Owner(), c, t, dl.At)
+					return
+				}
 			}
 		}
 		name = fmt.Sprintf("%s@%s/%s", name, stNames[st], dir)
@@ -309,6 +335,12 @@ func runC12(w *World) {
 					return
 				}
 			}
+		} else if tie {
+			w.Probe("amnesia-tie-not-judged")
+			w.Sleep(301*time.Second + 4*logMax)
+			w.Quiesce()
+			takeAll()
+			break
 		} else {
 			nproto++
 			w.NonTrivial = true
@@ -316,7 +348,7 @@ func runC12(w *World) {
 				d = 0
 				w.Probe("amnesia")
 			}
-			tLast = t
+			tLast, sleptLast = t, slept0
 			if d == 0 {
 				d = 60 * time.Second
 			} else {
